@@ -17,6 +17,7 @@ use collector::{Collector, Decision, Outcome, Phase, RequestLog, Signal, Transpo
 use emit::Emitter as _;
 use serde::{Deserialize, Serialize};
 use std::collections::{BTreeMap, BTreeSet};
+use std::sync::Mutex;
 use std::time::Duration;
 use vcore::{Cx, Res};
 
@@ -307,8 +308,10 @@ pub struct Observed {
     pub base: u64,
     /// ids emitted per signal (plug first)
     pub emitted: BTreeMap<Signal, Vec<u64>>,
-    /// result of the short flush attempted while every plug was still unanswered
+    /// result of the short flush attempted while every plug was still unanswered, and the log as it
+    /// was when that flush returned
     pub early_flush: Option<bool>,
+    pub log_at_early_flush: Vec<RequestLog>,
     /// result of the final flush (Ending::Flush only) and the log as it was when flush returned
     pub flush: Option<bool>,
     /// result of a short flush attempted while one signal's endpoint was (still) down
@@ -322,6 +325,8 @@ pub struct Observed {
     /// sampled before the emitter is dropped: a request can fail on the client side (its timeout
     /// expiring under load) without the collector having refused anything
     pub client_failed: BTreeMap<Signal, usize>,
+    /// requests of stale emitters of earlier cases that the collector turned away (port reuse)
+    pub foreign: u64,
 }
 
 fn sample_client_failures(otlp: &emit_otlp::Otlp) -> BTreeMap<Signal, usize> {
@@ -360,7 +365,34 @@ fn all_acked(log: &[RequestLog], want: &BTreeMap<Signal, Vec<u64>>, signals: &[S
     signals.iter().all(|s| want.get(s).map(|v| v.iter().all(|id| acked.contains(id))).unwrap_or(true))
 }
 
+/// At most this many scenarios run at once in the process: each one is mostly asleep, but its busy
+/// phases (encoding and shipping megabytes through two single-threaded runtimes) must not be starved past
+/// emit's scaled request timeout by hundreds of sibling cases (thorough tier: 33 generators x 16 shards).
+const MAX_CONCURRENT: usize = 64;
+static RUNNING: (Mutex<usize>, std::sync::Condvar) = (Mutex::new(0), std::sync::Condvar::new());
+
+struct Permit;
+
+impl Permit {
+    fn acquire() -> Permit {
+        let mut n = RUNNING.0.lock().unwrap();
+        while *n >= MAX_CONCURRENT {
+            n = RUNNING.1.wait(n).unwrap();
+        }
+        *n += 1;
+        Permit
+    }
+}
+
+impl Drop for Permit {
+    fn drop(&mut self) {
+        *RUNNING.0.lock().unwrap() -= 1;
+        RUNNING.1.notify_one();
+    }
+}
+
 pub fn run(sc: &Scenario) -> Observed {
+    let _permit = Permit::acquire();
     let case_started = std::time::Instant::now();
     let started = Collector::try_start().and_then(|c| {
         if sc.wire == Wire::Grpc {
@@ -376,12 +408,14 @@ pub fn run(sc: &Scenario) -> Observed {
                 base: 0,
                 emitted: BTreeMap::new(),
                 early_flush: None,
+                log_at_early_flush: Vec::new(),
                 flush: None,
                 outage_flush: None,
                 log_at_flush: Vec::new(),
                 log_final: Vec::new(),
                 settled: false,
                 client_failed: BTreeMap::new(),
+                foreign: 0,
             }
         }
     };
@@ -405,12 +439,14 @@ pub fn run(sc: &Scenario) -> Observed {
         base,
         emitted: BTreeMap::new(),
         early_flush: None,
+        log_at_early_flush: Vec::new(),
         flush: None,
         outage_flush: None,
         log_at_flush: Vec::new(),
         log_final: Vec::new(),
         settled: false,
         client_failed: BTreeMap::new(),
+        foreign: 0,
     };
 
     // 1. plugs
@@ -434,6 +470,7 @@ pub fn run(sc: &Scenario) -> Observed {
     // 2. a flush attempted now cannot have anything acknowledged
     if sc.early_flush && !healthy.is_empty() {
         obs.early_flush = Some(otlp.blocking_flush(Duration::from_millis(30)));
+        obs.log_at_early_flush = c.requests();
     }
 
     // 3. the batch (events of the signals interleaved round-robin, as an application would emit them)
@@ -526,6 +563,7 @@ pub fn run(sc: &Scenario) -> Observed {
             obs.log_final = c.requests();
         }
     }
+    obs.foreign = c.foreign_requests();
     c.release_stalls();
     c.shutdown();
     obs
@@ -574,6 +612,7 @@ pub fn judge(sc: &Scenario, obs: &Observed, cx: &mut Cx) -> Result<Result<(), St
     if let Some(p) = &obs.harness_problem {
         return Ok(Err(p.clone()));
     }
+    cx.class_if(obs.foreign > 0, "stale-emitter-request-turned-away");
     let healthy = sc.healthy();
     let log = &obs.log_final;
     for r in log.iter().chain(obs.log_at_flush.iter()) {
@@ -634,12 +673,23 @@ pub fn judge(sc: &Scenario, obs: &Observed, cx: &mut Cx) -> Result<Result<(), St
         }
     }
 
-    // ---- a flush attempted while every plug is unanswered must not report success
+    // ---- a flush attempted while a plug is unanswered must not report success. (Under heavy load emit's
+    //      scaled request timeout can expire on the held plug; the plug is then sent again and answered by
+    //      the next scripted decision — so "unanswered" is judged from the log, not assumed.)
     if obs.early_flush == Some(true) {
-        cx.fail(
-            "flush-reported-success-while-request-unanswered",
-            format!("blocking_flush returned true while the first request of {healthy:?} was still being held by the collector"),
-        )?;
+        let mut acked_then: BTreeSet<u64> = BTreeSet::new();
+        for r in &obs.log_at_early_flush {
+            if r.outcome == Outcome::Acked {
+                acked_then.extend(ids_of(r));
+            }
+        }
+        let unanswered: Vec<Signal> = healthy.iter().copied().filter(|s| !acked_then.contains(&plug_id(obs.base, *s))).collect();
+        if !unanswered.is_empty() {
+            cx.fail(
+                "flush-reported-success-while-request-unanswered",
+                format!("blocking_flush returned true while the first event of {unanswered:?} was in no acknowledged request (its request was being held by the collector)"),
+            )?;
+        }
     }
 
     if obs.outage_flush == Some(true) {
@@ -770,7 +820,11 @@ pub fn judge(sc: &Scenario, obs: &Observed, cx: &mut Cx) -> Result<Result<(), St
         let sig = r.signal.unwrap();
         let later: Vec<&RequestLog> = log[i + 1..].iter().filter(|q| q.signal == Some(sig)).collect();
         let ids = ids_of(r);
-        if !ids.is_empty() && !after_drop && ids.is_disjoint(&reported) && !later.iter().any(|q| ids_of(q) == ids) {
+        // "sent again with the same events": another request of the signal carries exactly this set. Its
+        // position in the log is not required to be later: requests on different connections are logged
+        // when their serving threads get to run, which under load need not be the order they were sent in.
+        let resent = log.iter().enumerate().any(|(j, q)| j != i && q.signal == Some(sig) && ids_of(q) == ids);
+        if !ids.is_empty() && !after_drop && ids.is_disjoint(&reported) && !resent {
             // (when the events then stay undelivered this has already been reported above; reaching
             // this point means they were delivered, but not by sending the failed request again)
             cx.fail(
